@@ -4,6 +4,7 @@ package verifharness_test
 
 import (
 	"fmt"
+	"math/rand/v2"
 	"strings"
 	"testing"
 
@@ -84,27 +85,9 @@ func buildUniverse(t *testing.T, hostsSel func(h string) bool, schemes []string,
 						continue
 					}
 					sp := PatSpec{Scheme: sch, Subs: subs, Host: h.host, IP6: h.ip6, Port: pt}
-					str := sp.String()
-					parsed, err := origins.ParsePattern(str)
+					up, err := newUPat(sp)
 					if err != nil {
-						t.Fatalf("C01 universe: pattern %q (valid by construction) rejected by ParsePattern: %v -- this is C13's business; fix the universe or the code", str, err)
-					}
-					up := &uPat{spec: sp, str: str, parsed: parsed}
-					seen := map[string]bool{}
-					for _, o := range probesFor(sp) {
-						s := o.String()
-						if seen[s] {
-							continue
-						}
-						seen[s] = true
-						po, ok := origins.Parse(s)
-						if !ok {
-							// a well-formed origin the request-side parser refuses: decided by the oracle below
-							up.probes = append(up.probes, uProbe{spec: o, str: s, parsed: origins.Origin{}})
-							up.probes[len(up.probes)-1].parsed.Scheme = "\x00unparsed"
-							continue
-						}
-						up.probes = append(up.probes, uProbe{spec: o, str: s, parsed: po})
+						t.Fatalf("C01 universe: pattern %q (valid by construction) rejected by ParsePattern: %v -- this is C13's business; fix the universe or the code", sp.String(), err)
 					}
 					u = append(u, up)
 				}
@@ -112,6 +95,119 @@ func buildUniverse(t *testing.T, hostsSel func(h string) bool, schemes []string,
 		}
 	}
 	return u
+}
+
+// newUPat parses a pattern that is valid by construction and attaches its probes (denoted origins and near-misses).
+func newUPat(sp PatSpec) (*uPat, error) {
+	str := sp.String()
+	parsed, err := origins.ParsePattern(str)
+	if err != nil {
+		return nil, err
+	}
+	up := &uPat{spec: sp, str: str, parsed: parsed}
+	seen := map[string]bool{}
+	for _, o := range probesFor(sp) {
+		s := o.String()
+		if seen[s] {
+			continue
+		}
+		seen[s] = true
+		po, ok := origins.Parse(s)
+		if !ok {
+			// a well-formed origin the request-side parser refuses: decided by the oracle
+			up.probes = append(up.probes, uProbe{spec: o, str: s, parsed: origins.Origin{}})
+			up.probes[len(up.probes)-1].parsed.Scheme = "\x00unparsed"
+			continue
+		}
+		up.probes = append(up.probes, uProbe{spec: o, str: s, parsed: po})
+	}
+	return up, nil
+}
+
+// c01Family builds a sibling-heavy family: 9..40 hosts that differ in ONE byte directly in front of a common suffix
+// (so that one radix node gets many edges), mixed with patterns that split that node or its neighbours (hosts sharing
+// only part of the suffix, the base itself, `*.` patterns on the base) under several schemes and ports
+// (lesson of seeded change C01-jB: per-node data that is not carried along when a node with many edges is split).
+func c01Family(rng *rand.Rand) ([]*uPat, error) {
+	base := choose(rng, []string{"example.com", "a.com", "com", "kin", "example.com."})
+	prefix := choose(rng, []string{"", "app", "x"})
+	alphabet := "abcdefghijklmnopqrstuvwxyz0123456789-"
+	if prefix == "" {
+		alphabet = "abcdefghijklmnopqrstuvwxyz0123456789"
+	}
+	k := 9 + rng.IntN(28)
+	perm := rng.Perm(len(alphabet))
+	var specs []PatSpec
+	scheme := choose(rng, []string{"https", "http"})
+	joiner := choose(rng, []string{".", ""}) // siblings one label deeper, or differing inside the base's first label
+	for i := 0; i < k && i < len(perm); i++ {
+		c := string(alphabet[perm[i]])
+		h := prefix + c + joiner + base
+		if joiner == "" && (c == "-" || prefix == "" && c == "-") {
+			continue
+		}
+		if !wellFormedNumericHost(h) || strings.HasPrefix(h, "-") || strings.Contains(h, "-.") || strings.Contains(h, ".-") || lastLabelStartsWithDigit(h) {
+			continue // (a last label starting with a digit is a grey zone: treated as an IP address)
+		}
+		sp := PatSpec{Scheme: scheme, Host: h}
+		if rng.IntN(6) == 0 {
+			sp.Port = choose(rng, []int{portAny, 8080, 1})
+		}
+		if rng.IntN(8) == 0 {
+			sp.Scheme = "ht"
+		}
+		specs = append(specs, sp)
+	}
+	// splitters
+	trimmed := strings.TrimSuffix(base, ".")
+	cands := []PatSpec{
+		{Scheme: scheme, Host: base}, {Scheme: scheme, Subs: true, Host: base}, {Scheme: scheme, Subs: true, Host: base, Port: portAny},
+		{Scheme: scheme, Host: "partner" + base[len(base)/2:]}, {Scheme: scheme, Host: "q" + base[1:]}, {Scheme: scheme, Host: "zz." + base},
+		{Scheme: scheme, Host: prefix + "." + base}, {Scheme: "httpss", Host: base, Port: 65535},
+	}
+	if prefix != "" {
+		cands = append(cands, PatSpec{Scheme: scheme, Host: prefix[1:] + "0" + joiner + base}, PatSpec{Scheme: scheme, Subs: true, Host: prefix + "a" + joiner + base})
+	}
+	_ = trimmed
+	nSplit := 1 + rng.IntN(3)
+	var out []*uPat
+	var splitters []*uPat
+	for _, sp := range cands {
+		if strings.HasPrefix(sp.Host, ".") || strings.Contains(sp.Host, "..") || !wellFormedNumericHost(sp.Host) || lastLabelStartsWithDigit(sp.Host) {
+			continue
+		}
+		if up, err := newUPat(sp); err == nil {
+			splitters = append(splitters, up)
+		}
+	}
+	for _, sp := range specs {
+		up, err := newUPat(sp)
+		if err != nil {
+			return nil, fmt.Errorf("%q: %v", sp.String(), err)
+		}
+		out = append(out, up)
+	}
+	// order: siblings first, then splitters (the order in which a split finds a node with many edges); sometimes shuffled
+	spl := shuffled(rng, splitters)
+	if len(spl) > nSplit {
+		spl = spl[:nSplit]
+	}
+	switch rng.IntN(4) {
+	case 0:
+		out = shuffled(rng, append(out, spl...))
+	case 1:
+		cut := len(out) / 3
+		out = append(append(append([]*uPat{}, out[:cut]...), spl...), out[cut:]...)
+	default:
+		out = append(out, spl...)
+	}
+	return out, nil
+}
+
+func lastLabelStartsWithDigit(h string) bool {
+	h = strings.TrimSuffix(h, ".")
+	last := h[strings.LastIndexByte(h, '.')+1:]
+	return last != "" && last[0] >= '0' && last[0] <= '9'
 }
 
 type c01Case struct {
@@ -135,8 +231,17 @@ func c01CheckList(r *Run, l *Local, list []*uPat, public bool, extraProbes []*uP
 	var mw *cors.Middleware
 	if public {
 		var err error
+		// the tolerate switch is set only where the list needs it (a `*.` pattern on a single-label host, which is a public
+		// suffix by the PSL's default rule) and for half of the other lists: what a valid pattern denotes must not depend on it
+		// (lesson of seeded change C01-jD: the public-suffix check rewriting the pattern it inspects)
+		tol := len(strs)%2 == 0
+		for _, sp := range specs {
+			if sp.Subs && !strings.Contains(strings.TrimSuffix(sp.Host, "."), ".") {
+				tol = true
+			}
+		}
 		mw, err = cors.NewMiddleware(cors.Config{Origins: append([]string(nil), strs...),
-			ExtraConfig: cors.ExtraConfig{DangerouslyTolerateSubdomainsOfPublicSuffixes: true}})
+			ExtraConfig: cors.ExtraConfig{DangerouslyTolerateSubdomainsOfPublicSuffixes: tol}})
 		if err != nil {
 			r.Violate("valid-list-rejected", "S1-vs-NewMiddleware", fmt.Sprintf("patterns %q rejected: %v", strs, err), c01Case{strs, "", true})
 			mw = nil
@@ -232,7 +337,7 @@ func c01CheckList(r *Run, l *Local, list []*uPat, public bool, extraProbes []*uP
 func TestVerif_C01(t *testing.T) {
 	r := newRun(t, "C01")
 	r.Rule("pattern lists over a universe built to collide in the radix tree (hosts sharing non-label-boundary suffixes, IPv4/IPv6, trailing dot, 253-byte hosts; 4 schemes; ports none/1/8080/65535/*; exact and *.): " +
-		"all ordered lists up to a bound (exhaustive) + PRNG lists of length 4-40 with permutations and duplications + PRNG lists with `*` at every position (public API); probes = for every member the denoted origins and every near-miss class of the quantifier. " +
+		"all ordered lists up to a bound (exhaustive) + PRNG lists of length 4-40 with permutations and duplications + PRNG sibling-heavy families (9-40 hosts differing in one byte in front of a common suffix, followed / interleaved / shuffled with patterns that split that node) + PRNG lists with `*` at every position (public API); probes = for every member the denoted origins and every near-miss class of the quantifier. " +
 		"evaluation = one (list, origin) verdict compared with the denotation oracle; non-trivial = verdicts on origins sharing scheme and a host suffix byte with a listed pattern, counted per distinct (list, origin) for enumerated lists (distinct by construction) and once per distinct list (by hash) for sampled lists")
 	r.Assume("oracle S1 (denotes) transcribes the statement of C01; universe patterns are valid by construction (their acceptance is C13's business)")
 
@@ -256,6 +361,11 @@ func TestVerif_C01(t *testing.T) {
 		var list []*uPat
 		for _, s := range rc.Patterns {
 			p := byStr[s]
+			if p == nil {
+				if sp, ok := patSpecFromString(s); ok {
+					p, _ = newUPat(sp)
+				}
+			}
 			if p == nil {
 				t.Fatalf("replay: pattern %q not in universe", s)
 			}
@@ -379,6 +489,26 @@ func TestVerif_C01(t *testing.T) {
 				}
 				c01CheckList(r, l, perm, false, extra, false)
 			}
+		}
+	})
+	// --- sibling-heavy families (nodes with many edges, split by later patterns)
+	nFam := pick(r, 600, 20000)
+	famBatches := pick(r, 60, 1000)
+	r.Parallel(famBatches, func(l *Local) {
+		rng := l.Rng
+		for i := 0; i < nFam/famBatches; i++ {
+			list, err := c01Family(rng)
+			if err != nil { // acceptance of patterns is C13's business
+				l.counters["sibling_family_pattern_rejected"]++
+				continue
+			}
+			c01CheckList(r, l, list, i%2 == 0, nil, false)
+			strs := make([]string, len(list))
+			for j := range list {
+				strs[j] = list[j].str
+			}
+			l.NontrivialKey(strs...)
+			l.counters["sibling_family_lists"]++
 		}
 	})
 	// --- lists that contain `*` (public API only: the tree never sees `*`): every origin is allowed,
